@@ -308,6 +308,16 @@ func cmdC13(args []string) {
 				lists = append(lists, []string{parent + ":7", s}, []string{s, parent + ":7"}, []string{parent, s, parent + ":9"})
 			}
 		}
+		// ... and next to the SAME host under another scheme with another port (schemes that sort after and before its own):
+		// entries that share a tree node must not disturb one another
+		if i := strings.Index(s, "://"); i > 0 && rec.C.Wild == "none" && rec.C.Sep == "ok" && rec.C.Tail == "none" && rec.C.Host.Defect == "none" && len(s) < 200 {
+			hostport := s[i+3:]
+			host := hostport
+			if j := strings.LastIndexByte(hostport, ':'); j >= 0 && !strings.HasSuffix(hostport, "]") {
+				host = hostport[:j]
+			}
+			lists = append(lists, []string{"zzz://" + host + ":7", s}, []string{s, "a+a://" + host + ":7"}, []string{"zzz://" + host + ":*", s, "a+a://" + host})
+		}
 		for ci, list := range lists {
 			cx := map[string]any{"k": ci, "accepted": false, "named": false, "panicked": false, "self": false}
 			func() {
